@@ -4,7 +4,7 @@ import re
 
 from sa.absval import AbsEval, Const, Kind
 from sa.expr import txt, match, atom, unawait, linear, int_ordering, ordering, dotted
-from sa.model import AnalysisError
+from sa.model import AnalysisError, exc_is_subclass
 from .common import assume_from, describe, placeholder_bind
 from .seq import PV, guards_matching, own_nodes, eq_guard
 from .sockrules import FLAVOURS, pconsts, packet_ctor, evaluator
@@ -28,6 +28,8 @@ def _is_handler_call(n):
 
 
 def trigger_event_rules(A, fl, rule, cls_key='server'):
+    """cls_key 'server' (server flavours) or 'cls' (client flavours: containment and the
+    legacy retry only)."""
     fi = A.func(fl[cls_key] + '._trigger_event')
     pm = parents_map(fi.node)
     n_calls = 0
@@ -35,6 +37,17 @@ def trigger_event_rules(A, fl, rule, cls_key='server'):
         if not _is_handler_call(n):
             continue
         n_calls += 1
+        if cls_key != 'server':
+            # a client runs run_async handlers as tasks of their own: a nested function that
+            # only calls the handler is such a task body, an exception stays in the task
+            cur, nested = n, False
+            while cur in pm:
+                cur = pm[cur]
+                if isinstance(cur, (ast.FunctionDef, ast.AsyncFunctionDef)):
+                    nested = cur is not fi.node
+                    break
+            if nested:
+                continue
         # climb: the call must sit in the *body* of a try with a bare (or BaseException) handler
         cur = n
         covered = None
@@ -64,6 +77,8 @@ def trigger_event_rules(A, fl, rule, cls_key='server'):
             A.check(not bad, rule + '.containment', '%s: the catch-all does not re-raise'
                     % fl['name'], A.site(fi, h), key='%s-handler-reraise' % fl['name'],
                     behaviour='handler exceptions propagate into the engine')
+            if cls_key != 'server':
+                continue        # clients have no connect verdict
             rets = [x for st in h.body for x in ast.walk(st) if isinstance(x, ast.Return)]
             ok = True
             for r in rets:
@@ -80,11 +95,22 @@ def trigger_event_rules(A, fl, rule, cls_key='server'):
     A.floor(rule, '%s handler call sites in _trigger_event' % fl['name'], n_calls, 2)
     # the legacy one-argument retry exists for the disconnect event only
     n_retry = 0
-    nargs = 2 if cls_key == 'server' else 1
+    nargs = 2 if cls_key == 'server' else 1     # (sid, reason) / (reason)
     for n in ast.walk(fi.node):
         if _is_handler_call(n):
+            # a retry: a handler call inside an ``except TypeError`` clause
+            cur, in_te = n, False
+            while cur in pm:
+                par = pm[cur]
+                if isinstance(par, ast.ExceptHandler) and par.type is not None and \
+                        'TypeError' in txt(par.type):
+                    in_te = True
+                    break
+                if isinstance(par, (ast.FunctionDef, ast.AsyncFunctionDef)):
+                    break
+                cur = par
             c = unawait(n)
-            if not any(isinstance(a, ast.Starred) for a in c.args):
+            if in_te or not any(isinstance(a, ast.Starred) for a in c.args):
                 n_retry += 1
                 cur, ok = n, False
                 while cur in pm:
@@ -102,13 +128,21 @@ def trigger_event_rules(A, fl, rule, cls_key='server'):
                     if isinstance(par, (ast.FunctionDef, ast.AsyncFunctionDef)):
                         break
                     cur = par
-                A.check(ok, rule + '.legacy-retry', "%s: the handler is re-invoked without the "
-                        "reason argument only for a 'disconnect' event whose handler raised "
-                        'TypeError' % fl['name'], A.site(fi, n),
+                # the retry passes everything but the reason
+                passed = [txt(a) for a in c.args]
+                ok_args = passed in ([], ['args[0]'], ['*args[:-1]'], ['*args[:1]']) and \
+                    (nargs == 2) == bool(passed) or passed == ['*args[:-1]']
+                A.check(ok and ok_args, rule + '.legacy-retry', "%s: the handler is re-invoked "
+                        "without the reason argument only for a 'disconnect' event (fired with "
+                        '%d argument%s) whose handler raised TypeError'
+                        % (fl['name'], nargs, '' if nargs == 1 else 's'), A.site(fi, n),
                         key='%s-legacy-retry-guard' % fl['name'], detail=txt(n),
                         behaviour='a message handler that raises TypeError is called a second '
-                                  'time (with the payload dropped): the event fires twice')
+                                  'time (with the payload dropped), or a legacy disconnect '
+                                  'handler is never called: the event fires twice / not at all')
     A.floor(rule, '%s legacy retry call sites' % fl['name'], n_retry, 1)
+    if cls_key != 'server':
+        return
     # dispatch mode
     sock = A.model.cls(fl[cls_key])
     en = A.enum(follow_handlers=False)
@@ -907,6 +941,24 @@ def response_rules(A, fl, rule, parts=('one-response', 'errors', 'reap')):
                             behaviour='no response or two responses for one request')
         # protocol errors from the socket handlers
         if 'errors' in parts:
+            # a protocol error raised by the session (any EngineIOError subclass) must reach the
+            # protocol-error branch: no other clause may take it first
+            for i, e in enumerate(v.ev):
+                if e.kind == 'exc' and e.depth == 0 and e.cls and \
+                        exc_is_subclass(e.cls, 'EngineIOError', A.resolver.exc_parents) and \
+                        i > 0 and v.ev[i - 1].kind == 'call' and \
+                        txt(v.ev[i - 1].expr).startswith('socket.handle_'):
+                    nh = next((x for x in v.ev[i + 1:] if x.kind in ('handler', 'call', 'bind')),
+                              None)
+                    A.check(nh is not None and nh.kind == 'handler' and
+                            nh.cls == 'EngineIOError', rule + '.protocol-error',
+                            '%s: a protocol error raised by the session handlers (%s) is taken '
+                            'by the protocol-error branch' % (name, e.cls),
+                            A.site(fi, e.node), key='%s-protocol-error-misrouted' % name,
+                            detail=v.describe(70),
+                            behaviour='a refused packet / oversize body / dead poll is answered '
+                                      'as if nothing happened: the session survives a protocol '
+                                      'error')
             hidx = [i for i, e in enumerate(v.ev) if e.kind == 'handler' and e.cls == 'EngineIOError']
             for hi in hidx:
                 if any(e.kind == 'exc' for e in v.ev[hi:]):
@@ -1133,6 +1185,22 @@ def jsonp_rule(A, rule):
                     rule + '.jsonp', 'the escaped text is exactly the encoded payload',
                     A.site(enc), key='jsonp-inner', detail=[txt(x) for x in inner])
     A.floor(rule, 'JSONP encode paths', n, 1)
+    # the wrapper is applied for every index that was asked for - 0 included - and only then
+    for label, val, wrapped in (('index 0', Const(0), True), ('no index', Const(None), False)):
+        A.counters['cases'] += 1
+        en = A.enum(assume=assume_from({'jsonp_index': val}), loop_bound=1)
+        ps = [p for p in A.paths(en, enc) if p.outcome == 'return']
+        A.floor(rule, 'Payload.encode paths for %s' % label, len(ps), 1)
+        for p in ps:
+            parts = merge_consts(flatten_concat(p.value))
+            is_wrapped = bool(parts) and txt(parts[0]) == "'___eio['"
+            A.check(is_wrapped == wrapped, rule + '.jsonp',
+                    'Payload.encode wraps the payload for JSONP exactly when an index is given '
+                    '(%s -> %s)' % (label, 'wrapped' if wrapped else 'plain'), A.site(enc),
+                    key='jsonp-wrap-%s' % label.replace(' ', '-'),
+                    detail=[txt(x) for x in parts],
+                    behaviour='a JSONP client whose callback index is 0 receives a bare payload '
+                              'it cannot evaluate: everything dequeued for that poll is lost')
 
 
 # ---------------------------------------------------------------------------------------
@@ -1955,6 +2023,78 @@ def asgi_read_rule(A, rule):
                     A.site(rd), key='asgi-read-slice', detail=v.describe())
 
 
+def asgi_body_rule(A, rule):
+    """translate_request hands the *whole* request body to the server: every http.request
+    event it receives is appended, once and in arrival order, and it stops receiving only
+    after an event without more_body (or an event of another type).  A body that is cut
+    short is decoded as a different payload: packets are lost, truncated, or a body that
+    should be refused whole is accepted."""
+    tr = A.func('async_drivers.asgi.translate_request')
+    en = A.enum(follow_handlers=False, loop_bound=2, keep={'event', 'payload'},
+                max_paths=60000,
+                stop=lambda node, f: node.kind == 'stmt' and isinstance(node.ast, ast.Assign)
+                and any(isinstance(t, ast.Name) and t.id in ('raw_uri', 'environ')
+                        for t in node.ast.targets))
+    ps = [p for p in A.paths(en, tr) if p.outcome == 'cut' and (p.cut or '').startswith('stop@')
+          or p.outcome == 'return']
+    site = A.site(tr)
+    n_multi = 0
+    beh = 'a POST body that arrives in several ASGI events reaches the server truncated: ' \
+          'packets are lost or cut, or an over-long batch is accepted in part'
+    for p in ps:
+        v = PV(p)
+        # segments: one per received event
+        segs = []
+        for i, e in enumerate(v.ev):
+            if e.kind == 'bind' and txt(e.target) == 'event' and e.depth == 0:
+                segs.append({'at': i, 'http': None, 'more': None, 'appended': 0, 'empty': False,
+                             'shape': True})
+                continue
+            if not segs:
+                continue
+            g = segs[-1]
+            if e.kind == 'guard' and e.depth == 0:
+                a, pl = atom(e.expr, e.pol)
+                if a == "event['type'] == 'http.request'":
+                    g['http'] = pl
+                elif a in ("event.get('more_body')", "event.get('more_body', False)",
+                           "event['more_body']"):
+                    g['more'] = pl
+                elif a in ("event.get('body')", "event['body']") and not pl:
+                    g['empty'] = True       # the path knows this chunk is empty
+            if e.kind == 'bind' and txt(e.target) == 'payload' and e.depth == 0 and \
+                    'event' in txt(e.expr):
+                g['appended'] += 1
+                val = unawait(e.expr)
+                ok = isinstance(val, ast.BinOp) and isinstance(val.op, ast.Add) and \
+                    txt(val.left) == 'payload' and txt(val.right) in (
+                        "event.get('body') or b''", "event['body']", "event.get('body', b'')",
+                        "event['body'] or b''")
+                g['shape'] = g['shape'] and ok
+        http = [g for g in segs if g['http']]
+        if len(http) >= 2:
+            n_multi += 1
+        for k, g in enumerate(segs):
+            if not g['http']:
+                continue
+            A.check(g['appended'] == 1 and g['shape'] or (g['appended'] == 0 and g['empty']),
+                    rule + '.body-assembly', 'ASGI: the body of every http.request event '
+                    'received is appended to the request body, once, at the end',
+                    A.site(tr, v.node(g['at'])), key='asgi-body-chunk-appended',
+                    detail=v.describe(40), behaviour=beh)
+            last = k == len(segs) - 1
+            if last and p.outcome != 'cut' or last and (p.cut or '').startswith('stop@'):
+                A.check(g['more'] is False, rule + '.body-assembly', 'ASGI: receiving stops '
+                        'only after an http.request event without more_body',
+                        A.site(tr, v.node(g['at'])), key='asgi-body-stop',
+                        detail=v.describe(40), behaviour=beh)
+            elif not last:
+                A.check(g['more'] is True, rule + '.body-assembly', 'ASGI: a further event is '
+                        'awaited only while more_body is set', A.site(tr, v.node(g['at'])),
+                        key='asgi-body-continue', detail=v.describe(40))
+    A.floor(rule, 'asgi translate_request paths with a multi-event body', n_multi, 1)
+
+
 def _asgi_buffering(A, buffering_rule):
     # body accumulation before the size gate (C14.5)
     tr = A.func('async_drivers.asgi.translate_request')
@@ -2161,3 +2301,103 @@ def driver_fifo_rule(A, rule):
                        'src/engineio/async_drivers/gevent_uwsgi.py:%d' % node.lineno,
                        key='driver-uwsgi-insert', detail=txt(node))
     A.floor(rule, 'gevent_uwsgi receive-buffer pops', n, 2)
+
+
+# ---------------------------------------------------------------------------------------
+# driver WebSocket.send: the message reaches the gateway unchanged, whatever its value
+# ---------------------------------------------------------------------------------------
+def _py_select(e, ev):
+    """The operand a Python ``and`` / ``or`` / conditional expression evaluates to under the
+    evaluator ev (None when a needed truth value is unknown)."""
+    e = unawait(e)
+    if isinstance(e, ast.BoolOp):
+        last = None
+        for v in e.values:
+            last = _py_select(v, ev)
+            if last is None:
+                return None
+            t = ev.truth(last)
+            if t is None:
+                return None if v is not e.values[-1] else last
+            if isinstance(e.op, ast.And) and not t:
+                return last
+            if isinstance(e.op, ast.Or) and t:
+                return last
+        return last
+    if isinstance(e, ast.IfExp):
+        t = ev.truth(e.test)
+        if t is None:
+            return None
+        return _py_select(e.body if t else e.orelse, ev)
+    return e
+
+
+def driver_send_rule(A, rule):
+    """Every driver's WebSocket.send(message) hands `message` itself to the gateway, for every
+    message the engine can produce: text or bytes, *including the empty ones*.  The ASGI
+    driver selects the event field by type: 'bytes' carries a bytes message, 'text' a str
+    message, the other field is None."""
+    cases = [('non-empty bytes', Kind('bytes', truthy=True, empty=False), True),
+             ('empty bytes', Kind('bytes', truthy=False, empty=True), True),
+             ('non-empty text', Kind('str', truthy=True, empty=False), False),
+             ('empty text', Kind('str', truthy=False, empty=True), False)]
+    n = 0
+    for ci in A.resolver.driver_ws:
+        send = None
+        for k in A.model.mro(ci):
+            if 'send' in k.methods:
+                send = k.methods['send']
+                break
+        if send is None:
+            # send() is inherited from the gateway library (eventlet): nothing of ours to check
+            continue
+        params = send.params()
+        if len(params) < 2:
+            raise AnalysisError('%s: %s.send takes no message' % (rule, ci.qualname))
+        msg = params[1]
+        is_asgi = ci.module.name.endswith('asgi')
+        for label, val, binary in cases:
+            A.counters['cases'] += 1
+            asm = {msg: val}
+            ev = AbsEval(assume_from(asm))
+            en = A.enum(assume=assume_from(asm), follow_handlers=False)
+            ps = [p for p in A.paths(en, send, ci) if p.outcome == 'return']
+            A.floor(rule, '%s.send paths for %s' % (ci.qualname, label), len(ps), 1)
+            for p in ps:
+                n += 1
+                v = PV(p)
+                carried = False
+                for e in v.ev:
+                    if e.kind != 'call':
+                        continue
+                    c = unawait(e.expr)
+                    if not isinstance(c, ast.Call):
+                        continue
+                    if isinstance(c.func, ast.Name) and c.func.id in (
+                            'isinstance', 'len', 'str', 'type', 'bytes', 'repr', 'bool'):
+                        continue        # inspecting the message is not sending it
+                    for a in list(c.args) + [k.value for k in c.keywords]:
+                        a = unawait(a)
+                        if isinstance(a, ast.Dict) and is_asgi:
+                            f = {k.value: x for k, x in zip(a.keys, a.values)
+                                 if isinstance(k, ast.Constant)}
+                            if f.get('type') is not None and \
+                                    match("'websocket.send'", f['type']) is not None:
+                                own = _py_select(f.get('bytes' if binary else 'text'), ev) \
+                                    if f.get('bytes' if binary else 'text') is not None else None
+                                other = _py_select(f.get('text' if binary else 'bytes'), ev) \
+                                    if f.get('text' if binary else 'bytes') is not None else None
+                                ok = own is not None and txt(own) == msg and \
+                                    (other is None and ('text' if binary else 'bytes') not in f
+                                     or other is not None and txt(other) == 'None')
+                                carried = carried or ok
+                        elif txt(_py_select(a, ev) or a) == msg:
+                            carried = True
+                A.check(carried, rule + '.driver-send',
+                        '%s.send(%s) hands the message itself to the gateway (%s)'
+                        % (ci.qualname, msg, label), A.site(send),
+                        key='driver-send:%s:%s' % (ci.module.name.split('.')[-1], label),
+                        detail=v.describe(20),
+                        behaviour='an empty binary (or text) message is silently dropped or sent '
+                                  'in the wrong frame kind by this driver')
+    A.floor(rule, 'driver send cases', n, 20)
